@@ -22,9 +22,9 @@ pub open spec fn g_init<T>() -> G<T> { G { dn: dn_init(), up: up_init() } }
 #[verifier::external_body] pub fn fresh_heap() -> (h: Heap) ensures !h.alloc_talkback && !h.alloc_skipped { unimplemented!() }
 
 //@include passthrough_common.rs TP=T G=G<T> HEAP=Heap
-//@invpart safe @C17 the upstream talkback is stored before it is used
-//@invpart data @C07 skip: output is the input without its first n items
-//@invpart pull @C14 demand conservation: skipped items are re-requested, outstanding demand is carried upstream
+//@invpart safe @C17,C04 the upstream talkback is stored before it is used
+//@invpart data @C07,C06 skip: output is the input without its first n items
+//@invpart pull @C14,C06 demand conservation: skipped items are re-requested, outstanding demand is carried upstream
 pub open spec fn inv_safe<T>(h: Heap, g: G<T>, c: Cap) -> bool {
     up_greeted(g.up.phase) ==> h.talkback is Some
 }
